@@ -95,16 +95,29 @@ inductive Fin3 | ok | err | panic
 deriving DecidableEq, Repr
 
 /-- the end of `OutputPrintableVisitor::visit_map`: the `is_none()` test names output_type, commit,
-spent, proof_hash and mmr_index - NOT block_height - and then EVERY one of the six is unwrapped -/
+spent, proof_hash and mmr_index; `block_height` is `block_height.unwrap_or(None)` since repair
+f960854e0 (a missing key reads as `None`), `proof` and `merkle_proof` are optional -/
 def outputPrintableFinish (k : OpKeys) : Fin3 :=
+  if !k.outputType || !k.commit || !k.spent || !k.proofHash || !k.mmrIndex then .err
+  else .ok
+
+/-- before repair f960854e0: the test did not name block_height and then EVERY one of the six was
+unwrapped (`block_height.unwrap()` on a key the test forgot) -/
+def outputPrintableFinishUnrepaired (k : OpKeys) : Fin3 :=
   if !k.outputType || !k.commit || !k.spent || !k.proofHash || !k.mmrIndex then .err
   else if !k.blockHeight then .panic
   else .ok
 
-/-- `OutputPrintable::range_proof()`: no proof string -> error; not hex -> error; then
-`p_bytes.clone_from_slice(&p_vec[..MAX_PROOF_SIZE])` - the slice PANICS when fewer than 675 bytes
-were decoded; more than 675 are cut off -/
+/-- `OutputPrintable::range_proof()`: no proof string -> error; not hex -> error; fewer than 675 bytes
+-> error (repair 5eec0a242); then `p_bytes.clone_from_slice(&p_vec[..MAX_PROOF_SIZE])`: more than 675
+bytes are cut off -/
 def rangeProofHelper (proof : Option Bytes) : FieldRes :=
+  match proof with
+  | none => .err
+  | some s => ofHex s fun b => if b.length < MAX_PROOF then .err else .ok (b.take MAX_PROOF)
+
+/-- before repair 5eec0a242: the slice `&p_vec[..675]` PANICKED when fewer than 675 bytes were decoded -/
+def rangeProofHelperUnrepaired (proof : Option Bytes) : FieldRes :=
   match proof with
   | none => .err
   | some s => ofHex s fun b => if b.length < MAX_PROOF then .panic else .ok (b.take MAX_PROOF)
